@@ -243,4 +243,70 @@ PROPS = {
             "rate-1 identity: volume 0 dB, centre panning, no fade, immediate start (the gain stage is covered by C19/C06 and the twin)",
         ],
     },
+    "C02": {
+        "suites": [{"name": "mixer", "quick": 10000, "thorough": 300000}],
+        "level_text": "Lean theorems about the imperative model of Renderer/Mixer/Track/SendTrack/MainTrack::process (shared temp "
+                      "buffers, in-place accumulation, early return of paused tracks, send inputs), for ALL track trees, effect chains, "
+                      "route tables, parameter states, buffer and callback sizes, with sounds/effects as arbitrary state-passing components: "
+                      "the mixer equals the closed recursive signal-flow specification (y_t = g_t.S_t(E_t(sum children + sum sounds)), sends "
+                      "fed post-fader times route volume, out = m.M(sum tracks + sum sends + main sounds)); every scratch/input buffer is "
+                      "all-zero whenever it is handed on (invariant of process, on_start_processing and every handle operation); paused / "
+                      "unrouted / missing-send branches contribute exactly 0; every sound and effect of a playing mixer is asked for exactly the "
+                      "chunk lengths [ibs,..,ibs,rest] per callback (each <= ibs, summing to the callback length); the device buffer is the "
+                      "concatenation of chunk conversions and the final stage clamps to [-1,1], mono = mean, extra channels 0. The same "
+                      "definitions run as a Float twin and agree bit-for-bit with kira (public API, probe backend/sounds/effects) on every "
+                      "output sample, probe call log, handle state and resource count of every generated history",
+        "level_note": "buffer-handling theorems hold for every number type (also the Float twin); the 'sum' statements are over the reals "
+                      "(float addition order is mirrored by the twin, not reordered); sounds/effects/spatialiser are abstract components "
+                      "assumed only not to resize the slice they are lent; each-frame-once is stated for mixers whose tracks are all playing "
+                      "(a non-advancing track is asked for nothing: C12); implementation-side metamorphic oracles: superposition on exactly "
+                      "representable signals, exact silence when all sources are finished/frozen/removed, probe-log shape, channel layout",
+        "assumptions": [
+            "a sound/effect returns a slice as long as the one it was lent (guaranteed by Rust's &mut [Frame])",
+            "device buffer length is a multiple of the channel count; internal buffer size and channel count >= 1 (0 is the modelled chunks_mut(0) panic)",
+            "send-track routes of one track name distinct send tracks (HashMap keys), so their iteration order is irrelevant",
+        ],
+    },
+    "C11": {
+        "suites": [{"name": "mixpart", "quick": 5000, "thorough": 150000}],
+        "level_text": "Lean theorems over the reals about the imperative model of Renderer/Mixer/Track/SendTrack/MainTrack::process, "
+                      "for ALL track trees, route tables and chunk-homomorphic abstract sounds/effects with settled parameters and a static "
+                      "environment: a chunk of a+b frames renders exactly the frames of a chunk of a then a chunk of b and reaches the same "
+                      "mixer (lifted through tracks by induction on the tree, through the send pass - the routed signal is split the same way "
+                      "- and the main track); hence any two sequences of Renderer::process calls with the same total length, on renderers built "
+                      "with ANY two internal buffer sizes >= 1, produce the identical device sample stream and the same final state up to "
+                      "scratch capacity. The same definitions run as a Float twin bit-exact with kira, and the real code is rendered in three "
+                      "further (buffer size, callback partition, channel count) configurations per static case and compared frame by frame",
+        "level_note": "over the reals (per-chunk float rounding of interpolated gains is outside; with constant parameters kira's gains are "
+                      "bit-constant and the real-code oracle compares bit-equal); whole device callbacks (on_start_processing + process) are covered by "
+                      "C11_device_callbacks_partition_invariant when nothing is in flight and the components' on_start_processing is "
+                      "neutral and no sound finishes; finishing sounds are covered by the real-code oracle and the twin only; real sounds/effects being "
+                      "chunk-homomorphic is their own models' business (C04/C09/C13) - the probes are proved to be",
+        "assumptions": [
+            "sounds/effects are chunk-homomorphic for constant dt and Info, and do not resize the slice they are lent",
+            "all volume / route / fade parameters stagnant with previous = current value; every sub-track Playing; no spatial tracks; no clocks/modulators moving",
+            "a + b <= internal buffer size for the one-chunk statement; buffer sizes >= 1",
+        ],
+    },
+    "C12": {
+        "suites": [{"name": "mixtrk", "quick": 10000, "thorough": 300000}],
+        "level_text": "Lean theorems about the model of Track::{process, on_start_processing, should_be_removed, read_commands}, "
+                      "TrackShared and TrackHandle for ALL trees, histories and abstract sounds/effects: a non-advancing track returns "
+                      "exact silence, feeds no send and leaves every sound, effect, sub-track and pending resource below it unchanged, for any "
+                      "number of chunks, so the first advancing chunk is computed from the frozen subtree; should_be_removed <-> handle dropped "
+                      "and (not persisting or no inserted sounds) and all inserted sub-tracks removable, hence never while an inserted "
+                      "descendant is not removable; at on_start_processing ring tracks are inserted (even if already dropped: 'the one after') "
+                      "and exactly the removable inserted tracks disappear; in every state reachable by histories whose awaited clocks exist "
+                      "the handle state decodes to one of the five track states and equals the manager's state. Proved FALSE at full strength, "
+                      "with model witnesses replayed on the real code by the suite: state() panics after resume_at on a vanished clock "
+                      "(C12_state_stopped_reachable), pending sounds / pending sub-tracks are ignored by the removal rule "
+                      "(C12_pending_sound_lost, C12_pending_child_lost). The same definitions run as a Float twin, bit-exact with kira",
+        "level_note": "C12_state_decodable and the persistence / live-descendant clauses of C12_removed_when hold only in the _partial form "
+                      "(three known findings); 'resume continues' is stated on sound/effect/sub-track states (positions are part of those "
+                      "abstract states; the probe corollary shows `produced` frozen); fades/positions of real sounds are C03/C04's models",
+        "assumptions": [
+            "a spatial track's Info differs from its parent's only in the listener part (clock lookups are inherited)",
+            "ids stand for Arc<TrackShared> identities; arena keys/generations are not modelled (C08)",
+        ],
+    },
 }
